@@ -474,6 +474,74 @@ def _columnwise_prefix(cx, rule, f, chunk, cp, assign):
     return False
 
 
+def _only_fixed_elements(f, chunk, cp):
+    """True when every use of the group `chunk` (or a plain alias of it) in the backward slice of `cp` inside `f` is a subscript
+    with a constant index, and there is at least one such use."""
+    aliases = {chunk}
+    changed = True
+    while changed:
+        changed = False
+        for n in ast.walk(f):
+            if isinstance(n, ast.Assign) and isinstance(n.value, ast.Name) and n.value.id in aliases:
+                for t in n.targets:
+                    if isinstance(t, ast.Name) and t.id not in aliases:
+                        aliases.add(t.id)
+                        changed = True
+    # backward slice over names (data dependences through assignments and loop targets; control dependences through the
+    # tests of the ifs / loops that enclose an assignment of a slice name)
+    sl = {cp}
+    exprs = []
+    changed = True
+    seen = set()
+    while changed:
+        changed = False
+        for n in ast.walk(f):
+            src = []
+            tg = set()
+            if isinstance(n, ast.Assign):
+                tg = {x.id for t in n.targets for x in ast.walk(t) if isinstance(x, ast.Name)}
+                src = [n.value]
+            elif isinstance(n, ast.AugAssign):
+                tg = {x.id for x in ast.walk(n.target) if isinstance(x, ast.Name)}
+                src = [n.value]
+            elif isinstance(n, (ast.For, ast.comprehension)):
+                tg = {x.id for x in ast.walk(n.target) if isinstance(x, ast.Name)}
+                src = [n.iter]
+            elif isinstance(n, ast.NamedExpr):
+                tg = {n.target.id}
+                src = [n.value]
+            if not (tg & sl) or id(n) in seen:
+                continue
+            seen.add(id(n))
+            changed = True
+            if isinstance(n, (ast.Assign, ast.AugAssign)):
+                for a in ancestors(n):
+                    if a is f:
+                        break
+                    if isinstance(a, (ast.If, ast.While)):
+                        src.append(a.test)
+                    elif isinstance(a, ast.For):
+                        src.append(a.iter)
+            for e in src:
+                exprs.append(e)
+                for x in ast.walk(e):
+                    if isinstance(x, ast.Name) and isinstance(x.ctx, ast.Load):
+                        sl.add(x.id)
+    fixed = whole = 0
+    for e in exprs:
+        for x in ast.walk(e):
+            if isinstance(x, ast.Name) and x.id in aliases and isinstance(x.ctx, ast.Load):
+                p_ = parent(x)
+                if isinstance(p_, ast.Subscript) and p_.value is x and not isinstance(p_.slice, ast.Slice) and \
+                        (const(p_.slice, int) or (isinstance(p_.slice, ast.UnaryOp) and isinstance(p_.slice.op, ast.USub) and const(p_.slice.operand, int))):
+                    fixed += 1
+                elif isinstance(p_, ast.Assign) and p_.value is x:
+                    pass            # plain alias, followed above
+                else:
+                    whole += 1
+    return fixed > 0 and whole == 0
+
+
 def common_prefix_rule(cx, rule):
     """_factorize_common_prefix_prods replaces  X -> p a1 | p a2 | ..  by  X -> p X'  with  X' -> a1 | a2 | ..  The language
     (and every derivation) is kept only if p is a prefix of EVERY alternative of the group.  Decided structurally:
@@ -499,6 +567,14 @@ def common_prefix_rule(cx, rule):
     assigns = [(st, v) for st, v in assignments(f, cp) if v is not None]
     cx.need(assigns, rule, f, f"assignments of `{cp}`")
     loops = [l for l in f.body if isinstance(l, ast.For) and chunk in names_in(l.iter)]
+    # ---- participation: a prefix common to ALL alternatives depends on every one of them.  If, in the backward slice of the
+    # prefix, the group is only ever indexed by constants (first / last element) and never iterated, sliced or passed on whole,
+    # the result is a function of those elements alone and is wrong for a group of three or more (s168).
+    if _only_fixed_elements(f, chunk, cp):
+        st_ = assigns[0][0]
+        cx.ob(rule, st_, False, semantic=True, detail=f"`{cp}` is computed from fixed elements of the group only (`{chunk}[0]`, `{chunk}[-1]`); the other alternatives never take part "
+              "(the group is in declaration order, not sorted): an alternative in the middle that diverges earlier is rewritten to start with a prefix it does not have")
+        return
     # ---- column-wise form: the alternatives are transposed with zip(*productions) and the prefix is read off the columns
     if len(assigns) == 1 and not loops:
         r_ = _columnwise_prefix(cx, rule, f, chunk, cp, assigns[0])
